@@ -340,6 +340,53 @@ theorem C11_codec_rejects_duplicate_witness :
     (decode decU16 decU8 [] [2, 0, 0, 0, 1, 0, 5, 1, 0, 7]).2 = none ∧
     (decode decU16 decVoid [] [2, 0, 0, 0, 3, 0, 3, 0]).2 = none := by decide
 
+/-- **Decoding is canonical (after the duplicate-key fix).**  For element decoders that accept only their
+encoder's bytes: whenever `Decode` of `b` into an empty map succeeds with result `m` consuming `n`
+bytes, the consumed prefix of `b` *is* `Encode(m)` — no two different byte strings decode to the same
+map — and `m` has distinct keys. -/
+theorem C11_codec_canonical {encK encV : Nat → Bytes} {decK decV : Dec} (hK : Canon encK decK) (hV : Canon encV decV)
+    (b : Bytes) (m : AMap) (n : Nat) (h : decode decK decV [] b = (m, some n)) :
+    encode encK encV m = b.take n ∧ (AMap.keys m).Nodup := by
+  unfold decode at h
+  cases hu : unle32 b with
+  | none => simp [hu] at h
+  | some cr =>
+    obtain ⟨c, rest⟩ := cr
+    simp only [hu] at h
+    obtain ⟨hb, hc⟩ := unle32_le32 hu
+    obtain ⟨l, hl, hn, hrest, hm, hnd, _⟩ := decodeLoop_canonical hK hV c rest [] 4 [] m n h
+    have hml : m = l := by
+      rw [hm]
+      have := AMap.foldl_set_append [] l (by simpa using hnd)
+      simpa using this
+    subst hml
+    refine ⟨?_, hnd⟩
+    unfold encode
+    rw [hl, Nat.mod_eq_of_lt hc, hn]
+    have hb2 : b = (le32 c ++ encodeEntries encK encV m) ++ rest.drop (encodeEntries encK encV m).length := by
+      rw [List.append_assoc, ← hrest]; exact hb
+    have hlen : (le32 c ++ encodeEntries encK encV m).length = 4 + (encodeEntries encK encV m).length := by
+      simp [length_le32]
+    conv => rhs; rw [hb2]
+    exact (List.take_left' hlen).symm
+
+theorem C11_codec_concrete_canonical : Canon encU16 decU16 ∧ Canon encVoid decVoid := by
+  refine ⟨?_, ?_⟩
+  · intro b x n h
+    match b, h with
+    | a0 :: a1 :: r, h =>
+      simp only [decU16, Option.some.injEq, Prod.mk.injEq] at h
+      obtain ⟨hx, hn⟩ := h
+      subst hn
+      have h0 := a0.toNat_lt; have h1 := a1.toNat_lt
+      have e0 : x % 256 = a0.toNat := by omega
+      have e1 : x / 256 % 256 = a1.toNat := by omega
+      simp [encU16, e0, e1]
+  · intro b x n h
+    simp only [decVoid, Option.some.injEq, Prod.mk.injEq] at h
+    obtain ⟨hx, hn⟩ := h
+    subst hn; simp [encVoid]
+
 /-- the concrete element codecs of the correspondence run (serix `uint16`, `uint8`, `struct{}`) satisfy
 the hypothesis on their domains -/
 theorem C11_codec_concrete :
@@ -357,33 +404,36 @@ example : decode decU16 decVoid [] (encode encU16 encVoid (newSet [3, 1, 2])) = 
 
 /-! ## weak iteration -/
 
-/-- **Full statement.** A `ForEach` (`fwd = true`) or `ForEachReverse` (`fwd = false`) on the map
+/-- **Weak iteration.** A `ForEach` (`fwd = true`) or `ForEachReverse` (`fwd = false`) on the map
 reached by any history, with arbitrary writers (`script`: per visit a list of `Set`/`Delete`/`Clear`,
 run by the consumer or by other goroutines while the lock is released) between its steps: if it runs
 to completion, the keys it passed to the consumer, restricted to the keys that were live throughout
 (present at the start, never deleted or cleared meanwhile), are exactly those keys, each once, in
-(reverse) insertion order. -/
-def C11_weak_iteration_statement : Prop :=
-  ∀ (fwd : Bool) (h : List MOp) (fuel : Nat) (script : List (List MOp × Bool)),
+(reverse) insertion order.  Proved over the pointer-level model: the iterator follows `next`/`prev`
+pointers of possibly unlinked elements; element identities strictly increase (decrease) along every
+such pointer of an element that was live at some time during the iteration, and no such pointer ever
+jumps over an element that stays live (`WInv`, `WInvR`). -/
+theorem C11_weak_iteration (fwd : Bool) (h : List MOp) (fuel : Nat) (script : List (List MOp × Bool)) :
     let p0 := PMap.run h
     let r := PMap.weakWalk fwd fuel p0 (if fwd then p0.head else p0.tail) script
     r.2.2 = true →
     (r.2.1.map (·.2.1)).filter (PMap.liveThrough p0 script)
-      = ((if fwd then AMap.keys (AMap.run h) else (AMap.keys (AMap.run h)).reverse)).filter (PMap.liveThrough p0 script)
+      = ((if fwd then AMap.keys (AMap.run h) else (AMap.keys (AMap.run h)).reverse)).filter (PMap.liveThrough p0 script) := by
+  intro p0 r hdone
+  obtain ⟨habs, hinv⟩ := PMap.run_refines h
+  have hk : AMap.keys (AMap.run h) = AMap.keys p0.dict := by rw [← habs, PMap.keys_abs]
+  cases fwd with
+  | true => simp only [if_true] at *; rw [hk]; exact PMap.weak_iteration_fwd hinv fuel script hdone
+  | false =>
+    simp only [Bool.false_eq_true, if_false] at *; rw [hk]; exact PMap.weak_iteration_rev hinv fuel script hdone
 
-/-- The forward half (`ForEach`) of `C11_weak_iteration_statement`, proved over the pointer-level model:
-the iterator follows `next` pointers of possibly unlinked elements, element identities strictly
-increase along every `next` pointer of an element that was live at some time during the iteration, and
-no such pointer ever jumps over an element that stays live.  Missing: the mirror-image argument for
-`ForEachReverse` (`prev` pointers); that direction is covered by the correspondence run and its
-weak-iteration oracle only. -/
-theorem C11_weak_iteration_partial (h : List MOp) (fuel : Nat) (script : List (List MOp × Bool))
+/-- the `ForEach` instance, spelled out -/
+theorem C11_weak_iteration_forward (h : List MOp) (fuel : Nat) (script : List (List MOp × Bool))
     (hdone : (PMap.weakWalk true fuel (PMap.run h) (PMap.run h).head script).2.2 = true) :
     ((PMap.weakWalk true fuel (PMap.run h) (PMap.run h).head script).2.1.map (·.2.1)).filter
         (PMap.liveThrough (PMap.run h) script)
-      = (AMap.keys (AMap.run h)).filter (PMap.liveThrough (PMap.run h) script) := by
-  obtain ⟨habs, hinv⟩ := PMap.run_refines h
-  rw [PMap.weak_iteration_fwd hinv fuel script hdone, ← habs, PMap.keys_abs]
+      = (AMap.keys (AMap.run h)).filter (PMap.liveThrough (PMap.run h) script) :=
+  C11_weak_iteration true h fuel script hdone
 
 /-- the probe of section 7: while visiting key 1 the consumer deletes 1 and 2 and re-inserts 1 — the
 iteration walks through the unlinked elements (it even reports the deleted key 2) and visits the
@@ -394,6 +444,15 @@ example :
     let r := PMap.weakWalk true 100 (PMap.run h) (PMap.run h).head script
     r.2.1.map (·.2.1) = [0, 1, 2, 3, 4, 1] ∧ r.2.2 = true ∧
     (r.2.1.map (·.2.1)).filter (PMap.liveThrough (PMap.run h) script) = [0, 3, 4] := by decide
+
+/-- the same in reverse: while visiting key 3 the consumer deletes 3 and 2 and re-inserts 3 (at the end,
+never seen by a reverse iteration); 4, 1, 0 stay live and come once each in reverse order -/
+example :
+    let h : List MOp := [.set 0 0, .set 1 1, .set 2 2, .set 3 3, .set 4 4]
+    let script : List (List MOp × Bool) := [([], false), ([.del 3, .del 2, .set 3 5], false)]
+    let r := PMap.weakWalk false 100 (PMap.run h) (PMap.run h).tail script
+    r.2.1.map (·.2.1) = [4, 3, 2, 1, 0] ∧ r.2.2 = true ∧
+    (r.2.1.map (·.2.1)).filter (PMap.liveThrough (PMap.run h) script) = [4, 1, 0] := by decide
 
 /-! ## concurrency: every method returns -/
 open Hive.Conc
